@@ -262,6 +262,18 @@ def _r073(ctx: Ctx) -> None:
             return v, list(rec)
         outs = guard('R07.3', mi, fn)(lambda: it.explore(thunk))
         ctx.need(outs and all(o.kind == 'return' for o in outs), 'R07.3', site, f'generate: paths {outs!r}')
+        # the symbolic reading applies to one shape of generate: letters drawn by fast_choice, joined, handed to
+        # pauli_to_bsf.  Any other shape (bits drawn directly, another assembly of the vector) is evaluated on scripted
+        # variates instead - a shape the rule does not know is not a violation
+        def _symbolic_shape(o):
+            v_p, calls_p = o.value
+            letters = all(isinstance(c[0], (tuple, list)) and all(isinstance(x, str) and len(x) == 1 for x in c[0])
+                          for c in calls_p)
+            return (letters and calls_p and isinstance(v_p, Tagged) and v_p.tag == 'pauli_to_bsf'
+                    and isinstance(v_p.args[0], Tagged) and v_p.args[0].tag == 'joined')
+        if not all(_symbolic_shape(o) for o in outs):
+            _r073_scripted(ctx, m, ci, mi, fn, site, given)
+            continue
         ok, detail, okv, v = True, '', True, None
         calls = []
         # every path (e.g. one per kind of model) is judged on its own
